@@ -157,19 +157,17 @@ func (o *originSrv) serve(c net.Conn) {
 			continue
 		}
 		if len(r.Raw) > 0 {
-			var times []time.Time
 			for i, piece := range r.Raw {
 				if i > 0 && r.GapMs > 0 {
 					time.Sleep(time.Duration(r.GapMs) * time.Millisecond)
 				}
-				times = append(times, time.Now())
+				o.mu.Lock() // recorded before the write, so that the client finds it whenever it has seen the bytes
+				o.sent[path] = append(o.sent[path], time.Now())
+				o.mu.Unlock()
 				if _, err := c.Write([]byte(piece)); err != nil {
 					break
 				}
 			}
-			o.mu.Lock()
-			o.sent[path] = times
-			o.mu.Unlock()
 			if r.RawClose {
 				return
 			}
